@@ -32,6 +32,25 @@ theorem slice_exact {n c : Nat} {g : G L D} {r : R L D} {P : List (Nat × Nat)} 
     (∀ u, u ∈ done ↔ Sl.Reach (fun u => edg g u) p v u) :=
   Sodg.slice_exact g g' v p h.edgesBelow ⟨h.edgesOK.1, h.edgesOK.2⟩ done hd hs hvalid
 
+/-- **C13 at its own quantifier (at most 14 kept vertices)**: for every reachable source graph, every start vertex
+    below the capacity and every predicate, the closure terminates; if it keeps at most 14 ids, every call of the
+    rebuild is within the limits (`Sodg.valid_rebuild`), so `slice_some` does not panic and returns a graph whose
+    present vertices are exactly the reachable ones and whose edges are exactly the source's edges between kept
+    vertices — no validity hypothesis left -/
+theorem slice_small {n c : Nat} {g : G L D} {r : R L D} {P : List (Nat × Nat)} (h : Reach n c g r P)
+    (v : Nat) (hv : v < cap g) (p : Nat → Nat → L → Bool) :
+    ∃ done, sliceDone g v p = some done ∧ (∀ u, u ∈ done ↔ Sl.Reach (fun u => edg g u) p v u) ∧
+      ((keptIds g done).length ≤ 14 →
+        ∃ g', sliceSome g v p = some g' ∧
+          (∀ u, u ∈ keys g' ↔ Sl.Reach (fun u => edg g u) p v u) ∧
+          (∀ x ∈ keys g', edg g' x = (edg g x).filter (fun e => decide (e.2 ∈ done)))) := by
+  have ht := terminates h v hv p
+  cases hd : sliceDone g v p with
+  | none => rw [hd] at ht; cases ht
+  | some done =>
+    refine ⟨done, rfl, ?_, fun h14 => Sodg.slice_small h v hv p done hd h14⟩
+    exact Sl.slice_done_eq_reach (fun u => edg g u) p v id (fun _ _ => Iff.rfl) (cap g + 1) done hd
+
 /-- the rebuild, as a list of calls on a fresh graph, refines the reference: no panic within the limits, and the
     result is related to the reference after the same calls (so C01–C03 apply to the slice afterwards) -/
 theorem rebuild_refines (ops : List (Op L D)) (g : G L D) (r : R L D) (hr : Rel g r) (hv : Valid g.n (cap g) r ops) :
